@@ -69,7 +69,7 @@ Theorem prefix_once r p u pd ud sym F B :
 Proof.
   intros Hn Hp Hpe Hpd Hud Hm Hs.
   assert (Hres : resolve r (p ++ u) = Ok (UDef (p ++ u) (Some sym) [] (p_val pd) false CScale {[ u := 1%Qc ]} false)).
-  { unfold resolve. rewrite Hn. destruct Hp as [Hp|[l Hp]]; rewrite Hp, Hpe; unfold prefixed_def;
+  { unfold resolve. rewrite Hn. destruct Hp as [Hp|[l Hp]]; rewrite Hp, Hpe, Hn; unfold prefixed_def;
       rewrite Hpd, Hud, Hm; simpl; rewrite Hs; reflexivity. }
   unfold rrow. rewrite (root_row_step 62 r (p ++ u)), Hres. simpl u_base. cbv iota.
   simpl u_ref. rewrite map_to_list_singleton. simpl sem_list2.
@@ -108,7 +108,7 @@ Proof.
   - rewrite mprod_mul; [| apply gscale_nz; assumption | | assumption].
     + rewrite mprod_singleton. unfold gscale at 1.
       assert (Hres : resolve r (p ++ u) = Ok (UDef (p ++ u) (Some sym) [] (p_val pd) false CScale {[ u := 1%Qc ]} false)).
-      { unfold resolve. rewrite Hn. destruct Hp as [l Hp]. rewrite Hp, Hpe. unfold prefixed_def.
+      { unfold resolve. rewrite Hn. destruct Hp as [l Hp]. rewrite Hp, Hpe, Hn. unfold prefixed_def.
         rewrite Hpd, Hud, Hm. simpl. rewrite Hs. reflexivity. }
       rewrite Hres. reflexivity.
     + intros k e He. apply lookup_singleton_Some in He as [_ <-]. reflexivity.
